@@ -36,7 +36,12 @@ F3 == {Field(<<"f", n, o>>, "I", d) : n \in NV, o \in NV, d \in DLeaf}
 C3 == {Class(<<"K", n, o>>, <<>>, fk @@ mk) : n \in NV, o \in NV, fk \in OptMap(F3), mk \in OptMap(M3)}
 Trees3 == {Root(<<"a", "b", "c">>, <<>>, ck) : ck \in OptMap(C3)}
 
-Trees == Trees2 \cup (IF Tier = 0 THEN {} ELSE Trees3)
+(* comments whose line structure is unusual: trailing / leading / only line breaks, blank lines *)
+DocPool == {<<>>, <<"t\n">>, <<"\n">>, <<"\nl">>, <<"a\n\nb">>, <<"two\nlines">>}
+DocTrees == {Root(<<"a", "b">>, rd, MapOf({Class(<<"K", "x">>, d, MapOf({Field(<<"f", "y">>, "I", d2),
+                                                                          Method(<<"m", "">>, "(I)V", d2, MapOf({Param(0, <<"", "p">>, d)}))}))})) :
+                rd \in {<<>>, <<"root\n">>}, d \in DocPool, d2 \in DocPool}
+Trees == Trees2 \cup DocTrees \cup (IF Tier = 0 THEN {} ELSE Trees3)
          \cup {Root(<<"a", "b", "c">>, <<>>, MapOf({Class(<<"K", "", "z">>, <<>>, MapOf({Field(<<"f", "", "z">>, "I", <<>>)}))}))}
 
 ---------------------------------------------------------------------------
